@@ -15,6 +15,8 @@ def poisson_tail_p(s, mu):
     if mu > 2000:
         z = (s - mu) / math.sqrt(mu)
         return math.erfc(abs(z) / math.sqrt(2.0))
+    if abs(s - mu) > 60.0 * math.sqrt(mu) + 60.0:
+        return 0.0          # (beyond 60 standard deviations: below any threshold used here, and the sums below would be long)
     s = int(s)
     # lower tail
     lo = 0.0
